@@ -230,6 +230,8 @@ fn finish(id: &str, cfg: &Cfg, acc: &Acc, meta: &Meta, wall: f64) -> i32 {
             _ => unlisted.push(v),
         }
     }
+    // unclassified failures first: they are the ones that need attention
+    unlisted.sort_by_key(|v| (v.sig.is_some(), v.case));
     // signature hits that were counted but whose stored examples were all truncated away
     for (s, _) in &acc.sig_hits {
         if findings.contains(s) && !known_sigs.contains(s) {
